@@ -277,11 +277,11 @@ def plan_for(prop, tier, seed):
         p["jobs"] = jobs
         p["require_cells"] = ["arm:bool", "arm:char", "arm:String", "arm:LeanString", "arm:generic", "arm:f32", "arm:f64", "generic_fmt_error_positions"]
     elif n == 16:
-        p["rule"] = ("from_utf8/from_utf8_lossy/from_utf16/from_utf16_lossy vs their String counterparts (acceptance and text; error values not compared) on ALL sequences up to the stated length over the 16-symbol class alphabet and the 25-symbol extended alphabet, the same sequences embedded after 12/15/16/17-byte valid prefixes (decoder state straddles the inline limit and the with_capacity(buf.len()) guess), all u16 sequences over {0,41,D7FF,D800,DBFF,DC00,DFFF,E000,FFFD,FFFF}, plus long nearly-valid inputs made by mutating valid text. distinct_nontrivial = distinct (outcome class, length) cells")
+        p["rule"] = ("from_utf8/from_utf8_lossy/from_utf16/from_utf16_lossy vs their String counterparts (acceptance and text; error values not compared) on ALL sequences up to the stated length over the 16-symbol class alphabet and the 25-symbol extended alphabet, the same sequences embedded after 12/15/16/17-byte valid prefixes (decoder state straddles the inline limit and the with_capacity(buf.len()) guess), all u16 sequences over {0,41,D7FF,D800,DBFF,DC00,DFFF,E000,FFFD,FFFF}, plus long nearly-valid inputs made by mutating valid text, plus block edges (one valid or broken multi-byte sequence at every offset from B-5 to B+2 in ASCII filler for B = 4 KiB ... 1 MiB, with and without a second block behind it). distinct_nontrivial = distinct (outcome class, length) cells")
         jobs = [eng("native-rel", "utf", ["--shim", "off", "--threads", 16] + (["--min-alpha-len", 5, "--ext-alpha-len", 4, "--u16-len", 5, "--long", 200000, "--pos-max", 1100] if quick else ["--min-alpha-len", 7, "--ext-alpha-len", 6, "--u16-len", 6, "--prefixed-len", 5, "--long", 3000000, "--pos-max", 9000]), 1, seed, weight=5, timeout=10000),
-                eng("native-rel", "utf", ["--shim", "shadow", "--threads", 1, "--min-alpha-len", 3, "--ext-alpha-len", 2, "--u16-len", 3, "--prefixed-len", 3, "--long", 20000, "--pos-max", 300], 4, seed + 1, weight=3, label="native-rel(shadow-heap)"),
-                eng("native-dbg", "utf", ["--shim", "shadow", "--threads", 16, "--min-alpha-len", 4, "--ext-alpha-len", 3, "--u16-len", 4, "--long", 20000, "--pos-max", 600], 1, seed + 2, weight=3)]
-        jobs += [eng("miri", "utf", ["--min-alpha-len", 2, "--ext-alpha-len", 1, "--u16-len", 2, "--prefixed-len", 1, "--long", 12 if quick else 200, "--pos-max", 6 if quick else 40], 4, seed + 3, **MT)]
+                eng("native-rel", "utf", ["--shim", "shadow", "--threads", 1, "--min-alpha-len", 3, "--ext-alpha-len", 2, "--u16-len", 3, "--prefixed-len", 3, "--long", 20000, "--pos-max", 300, "--edge-max", 131072], 4, seed + 1, weight=3, label="native-rel(shadow-heap)"),
+                eng("native-dbg", "utf", ["--shim", "shadow", "--threads", 16, "--min-alpha-len", 4, "--ext-alpha-len", 3, "--u16-len", 4, "--long", 20000, "--pos-max", 600, "--edge-max", 65536], 1, seed + 2, weight=3)]
+        jobs += [eng("miri", "utf", ["--min-alpha-len", 2, "--ext-alpha-len", 1, "--u16-len", 2, "--prefixed-len", 1, "--long", 12 if quick else 200, "--pos-max", 6 if quick else 40, "--edge-max", 0], 4, seed + 3, **MT)]
         p["jobs"] = jobs
         p["exhaustive_when"] = "utf"
     elif n == 17:
